@@ -637,6 +637,205 @@ func ctlRaces(c *ctx, file func() string) error {
 	return nil
 }
 
+// ---- C04 / C10: a device with a running session joins again and the join handler is hit by a crash or
+// a failed write at every position; then traffic of the old session arrives
+
+func ctlRejoinFaults(c *ctx, file func() string) error {
+	r := c.rng
+	positions := 0
+	for pos := -1; pos < 30; pos++ {
+		for _, mode := range []string{"crash", "fail"} {
+			if pos == -1 && mode == "fail" {
+				continue
+			}
+			if pos >= 0 && pos >= positions {
+				continue
+			}
+			c.res.Eval()
+			h, err := newCtlRun(c, file(), 0x13, false)
+			if err != nil {
+				return err
+			}
+			rd := &fixedReader{}
+			old := crand.Reader
+			crand.Reader = rd
+			restore := func() { crand.Reader = old }
+			d := h.abpDevice(false)
+			d.otaa = true
+			d.addr &= 0x1ffffff
+			copy(d.appKey.Key[:], r.Bytes(16))
+			if err := h.addDevice(d, 5, 3); err != nil {
+				restore()
+				return err
+			}
+			oldNwk := hx.H(d.nwk.Key[:])
+			u5, err := h.uplinkFrame(d, 5, true, false, []byte{0xa5, byte(pos + 1), 1})
+			if err != nil {
+				restore()
+				return err
+			}
+			u6, err := h.uplinkFrame(d, 6, true, false, []byte{0xa6, byte(pos + 1), 2})
+			if err != nil {
+				restore()
+				return err
+			}
+			fr, err := ask1(c, fmt.Sprintf("join.tx appkey=%s app=%s dev=%s nonce=2468", hx.H(d.appKey.Key[:]), hx.H(wire(d.app)), hx.H(wire(d.eui))))
+			if err != nil {
+				restore()
+				return err
+			}
+			join := hx.UnH(strings.TrimPrefix(fr, "frame="))
+			h.g.mu.Lock()
+			h.g.enabled = true
+			h.g.mu.Unlock()
+			var allEmitted []string
+			take := func(what string) error {
+				st, err := h.compare(what)
+				if err != nil {
+					return err
+				}
+				if st != "" {
+					allEmitted = append(allEmitted, stateSections(st)["emitted"])
+				}
+				return nil
+			}
+			// the session is in use: uplink 5 is accepted and answered
+			if err := h.inject("uplink 5 of the running session", u5, nil, 0); err != nil {
+				restore()
+				return err
+			}
+			if err := h.drain(); err != nil {
+				restore()
+				return err
+			}
+			if err := take("uplink 5"); err != nil {
+				restore()
+				return err
+			}
+			// the join-request, hit at position pos
+			an := []byte{7, 7, byte(pos + 1)}
+			rd.next = append([]byte{}, an...)
+			if err := h.inject("join-request of the device", join, an, d.addr); err != nil {
+				restore()
+				return err
+			}
+			k := 0
+			opAt := ""
+			for !h.failed {
+				p := h.g.parked()
+				if len(p) == 0 {
+					break
+				}
+				if p[0].op == "AddDevNonce" {
+					rd.next = append([]byte{}, an...)
+				}
+				if k == pos {
+					opAt = p[0].op
+					if mode == "crash" {
+						if err := h.crash(); err != nil {
+							restore()
+							return err
+						}
+						k++
+						break
+					}
+					fault := storageOps[p[0].op]
+					if !fault {
+						opAt = ""
+					}
+					if err := h.stepArrival(p[0], fault); err != nil {
+						restore()
+						return err
+					}
+					k++
+					continue
+				}
+				if err := h.stepArrival(p[0], false); err != nil {
+					restore()
+					return err
+				}
+				k++
+			}
+			if pos == -1 {
+				positions = k
+			}
+			if mode != "crash" {
+				if err := h.drain(); err != nil {
+					restore()
+					return err
+				}
+			}
+			if err := take(fmt.Sprintf("join with %s at position %d (%s)", mode, pos, opAt)); err != nil {
+				restore()
+				return err
+			}
+			// traffic of the old session: the frame already handled, then the next one
+			for i, f := range [][]byte{u5, u6} {
+				if h.failed {
+					break
+				}
+				if err := h.inject(fmt.Sprintf("old-session uplink %d after the join attempt", 5+i), f, nil, 0); err != nil {
+					restore()
+					return err
+				}
+				if err := h.drain(); err != nil {
+					restore()
+					return err
+				}
+				if err := take(fmt.Sprintf("old-session uplink %d", 5+i)); err != nil {
+					restore()
+					return err
+				}
+			}
+			restore()
+			if !h.failed {
+				full, _ := h.rig.stateText(h.euis)
+				sd, err := h.rig.st.GetDeviceByEUI(d.eui)
+				if err != nil {
+					return err
+				}
+				sessionKept := hx.H(sd.NwkSKey.Key[:]) == oldNwk
+				if dups := inboxDuplicates(full, d.eui); len(dups) > 0 && (c.prop == "C10" || c.prop == "C03") {
+					h.fail("propfail", "recorded-twice-after-join-"+mode, fmt.Sprintf("%s: after a %s at %s of the join handler an uplink of the old session is recorded twice", c.prop, mode, opAt), fmt.Sprint(dups), "")
+				}
+				seen := map[int]string{}
+				lastJA := ""
+				for _, em := range allEmitted {
+					ds, err := h.decodeDowns(d, em)
+					if err != nil {
+						return err
+					}
+					for _, x := range ds {
+						if prev, dup := seen[x.fcnt]; dup && !h.failed && (c.prop == "C10" || c.prop == "C07") {
+							h.fail("propfail", "downlink-fcnt-reused-after-join-"+mode, fmt.Sprintf("%s: after a %s at %s of the join handler the downlink counter %d is used twice under the old session keys", c.prop, mode, opAt, x.fcnt), x.raw, prev)
+						}
+						seen[x.fcnt] = x.raw
+					}
+					for _, line := range strings.Split(em, ";") {
+						f := strings.Fields(line)
+						if len(f) > 1 && strings.HasPrefix(f[1], "20") {
+							lastJA = f[1]
+						}
+					}
+				}
+				if (c.prop == "C04" || c.prop == "C05") && !h.failed && lastJA != "" {
+					if sessionKept {
+						h.fail("propfail", "join-accept-without-session", fmt.Sprintf("C04: the join-request was not honoured (%s at %s: the stored session is the old one) and yet a join-accept was sent", mode, opAt), lastJA, "no join-accept")
+					} else if a, err := ask1(c, fmt.Sprintf("join.rx appkey=%s nonce=2468 raw=%s", hx.H(d.appKey.Key[:]), lastJA)); err == nil {
+						if kv := hx.KV(a); kv["nwk"] != hx.H(sd.NwkSKey.Key[:]) || kv["apps"] != hx.H(sd.AppSKey.Key[:]) {
+							h.fail("propfail", "session-differs-from-join-accept", fmt.Sprintf("C04: after a %s at %s the stored session keys are not those the device derives from the join-accept it was sent", mode, opAt), hx.H(sd.NwkSKey.Key[:]), kv["nwk"])
+						}
+					}
+				}
+			}
+			c.res.Class(fmt.Sprintf("rejoin %s pos=%d op=%s", mode, pos, opAt))
+			c.res.Count("scenario=rejoin-" + mode)
+			h.close()
+		}
+	}
+	return nil
+}
+
 // ---- C17: a join-request of a device whose data uplink is still waiting for its receive window
 
 // delayOracle: every frame handed to the gateway is timed by what it is - a join-accept five seconds
